@@ -328,7 +328,7 @@ example : ∃ res ∈ ((Store.new Gen.srcConsts).run exSorter Gen.srcConsts Gen.
     Gen.srcConsts Gen.srcScoreOrder (tokenizeQuery Gen.srcProg exEnv [65, 66, 67, 44, 32, 100, 101, 102]),
     res.id = 42 := by
   obtain ⟨res, h1, h2, _⟩ := C13_whole_title_found_tokenized_src exSorter exSorter_ok toyU Gen.lang_en toyStem
-    toyU_facts tablesOK_en (fun _ => toyStem_bounded _) exOps exOps_tokenized (by decide +kernel) 0 exRec
+    toyU_facts tablesOK_en (toyStemHyp _ (by decide)) exOps exOps_tokenized (by decide +kernel) 0 exRec
     (by decide +kernel) (by decide +kernel) [65, 66, 67, 44, 32, 100, 101, 102] (by decide +kernel)
   exact ⟨res, h1, h2⟩
 
@@ -337,7 +337,7 @@ example : ∃ res ∈ ((Store.new Gen.srcConsts).run exSorter Gen.srcConsts Gen.
     Gen.srcConsts Gen.srcScoreOrder (tokenizeQuery Gen.srcProg exEnv [100, 101, 102, 32, 97, 98, 99]),
     res.id = 42 := by
   obtain ⟨res, h1, h2, _⟩ := C13_two_words_found_tokenized_src exSorter exSorter_ok toyU Gen.lang_en toyStem
-    toyU_facts tablesOK_en (fun _ => toyStem_bounded _) exOps exOps_tokenized (by decide +kernel) 0 exRec
+    toyU_facts tablesOK_en (toyStemHyp _ (by decide)) exOps exOps_tokenized (by decide +kernel) 0 exRec
     (by decide +kernel)
     { offset := 0, lo := 0, hi := 3, stem := 2, pos := none, fin := true }
     { offset := 1, lo := 4, hi := 7, stem := 2, pos := none, fin := true } (by decide +kernel) (by decide +kernel)
